@@ -83,12 +83,26 @@ def apply(obj, ev: dict):
             r = m(cdims=cd)
         else:
             r = m(rdims=rd, cdims_cyclic=f)
+        if op == "to_sptenmat" and bind.get_layout() == "grown":
+            # the same matricized tensor through the constructor, with a redundant pair of entries that cancel
+            # exactly at some coordinate (the constructor sums repeated subscripts): a presentation of the same object
+            nr = int(np.prod(np.array(r.tshape)[r.rdims])) if len(r.rdims) else 1
+            nc = int(np.prod(np.array(r.tshape)[r.cdims])) if len(r.cdims) else 1
+            z = np.array([[nr - 1, nc - 1]])
+            subs = np.vstack([z, r.subs.reshape(-1, 2), z]) if r.subs.size else np.vstack([z, z])
+            vals = np.vstack([[[3.0]], r.vals.reshape(-1, 1), [[-3.0]]]) if r.subs.size else np.array([[3.0], [-3.0]])
+            r = ttb.sptenmat(subs, vals, r.rdims.copy(), r.cdims.copy(), r.tshape)
         return r, bind.alpha(r)
     if op == "from_array":
         arr = obj.double()
+        # small magnitudes are entries like any other (2^-40 is exact): rotated with the array layout
+        f = 2.0 ** -40 if bind.get_layout() in ("strided", "grown") else 1.0
+        arr = arr * f
         if sum(obj.tshape) % 2:
             arr = sparse.coo_matrix(arr)
         r = ttb.sptenmat.from_array(arr, obj.rindices, obj.cindices, obj.tshape)
+        if f != 1.0 and r.vals.size:
+            r = ttb.sptenmat(r.subs.copy(), r.vals / f, r.rdims.copy(), r.cdims.copy(), r.tshape)
         return r, bind.alpha(r)
     raise ValueError(op)
 
